@@ -289,9 +289,14 @@ func rtTicker(n int, put func([]map[string]any)) int {
 			j := time.Duration(i%2) * 500 * time.Microsecond
 			evs := []map[string]any{{"ev": "reset", "run": i}, {"ev": "new", "d": int64(d / time.Microsecond), "j": int64(j / time.Microsecond), "panic": 0, "t": 0}}
 			tk := xtime.NewJitterTicker(d, j)
+		collect:
 			for k := 0; k < 120; k++ {
-				ts := <-tk.C
-				evs = append(evs, map[string]any{"ev": "tick", "ts": int64(ts.Sub(start) / time.Microsecond), "t": int64(time.Since(start) / time.Microsecond)})
+				select {
+				case ts := <-tk.C:
+					evs = append(evs, map[string]any{"ev": "tick", "ts": int64(ts.Sub(start) / time.Microsecond), "t": int64(time.Since(start) / time.Microsecond)})
+				case <-time.After(3 * time.Second): // a ticker that falls silent is not this rule's business
+					break collect
+				}
 			}
 			tk.Stop()
 			put(evs)
